@@ -184,7 +184,11 @@ class Ctx:
         '''-> (object handed to the NumPy call, arguments dict). Cached per node.'''
         key = repr(node)
         if key not in self._operands:
-            self._operands[key] = self._build(*node[1:])
+            try:
+                self._operands[key] = self._build(*node[1:])
+            except Exception as e:
+                # operands are built with nutils arithmetic / comparison / indexing on the real code: if that breaks the property is broken
+                raise OperandError('building operand {} raised {}: {}'.format(node, type(e).__name__, str(e)[:200]))
         return self._operands[key]
 
     def _build(self, kind, shape, dtype, variant, slot):
@@ -244,7 +248,10 @@ class Ctx:
                 # an empty operand has no values to ask for (and nutils cannot evaluate it on a product sample: raise:zero-length-result)
                 v = numpy.zeros((self.npoints, *node[2]), dtype=NPTYPE[node[3]])
             else:
-                v = numpy.asarray(self.sample.eval(obj, arguments=args))
+                try:
+                    v = numpy.asarray(self.sample.eval(obj, arguments=args))
+                except Exception as e:
+                    raise OperandError('evaluating operand {} raised {}: {}'.format(node, type(e).__name__, str(e)[:200]))
                 if v.shape != (self.npoints, *node[2]):
                     raise OperandError('operand {} evaluates to shape {}'.format(node, v.shape))
                 if kindchar(v.dtype) != node[3]:
